@@ -168,7 +168,13 @@ def from_model(m):
 
 
 def short(x, n=300):
-    s = repr(x)
+    try:
+        s = repr(x)
+    except BaseException as e:       # a value whose rendering runs user code
+        if isinstance(x, tuple):
+            s = "(" + ", ".join(short(y, n) for y in x) + ")"
+        else:
+            s = f"<{type(x).__name__}: rendering raises {type(e).__name__}>"
     return s if len(s) <= n else s[:n] + "..."
 
 
